@@ -219,3 +219,14 @@ Example C01_range_stream_instance :
   parse_stream_e (block_hash 1) (fun _ => true) (fun _ => true) 3 64 [5; 3; 0]%N (write_stream_e (block_hash 1) c [blk])
     = Some (norm_cfg c, [PData blk; PEnd]).
 Proof. vm_compute. split; reflexivity. Qed.
+
+(* one statement for both modelled pipelines (entropy NONE or RANGE; RANGE with block sizes up to 128 MiB): for entropy NONE
+   write_stream_e / parse_stream_e are the functions of Model/Container.v *)
+From KV Require Import Proofs.ContainerEProofs.
+Theorem C01_container_e_roundtrip : forall (hash : list N -> N) (evalid tvalid : N -> bool) c blocks nframes rbuf sched,
+  cfg_ok evalid tvalid c -> (h_etype c = RANGE_TYPE -> (h_bsize c <= 134217728)%N) ->
+  (h_ck c = 1%N -> forall l, (hash l < 2 ^ 32)%N) -> (h_ck c = 2%N -> forall l, (hash l < 2 ^ 64)%N) ->
+  Forall (blk_ok (h_bsize c)) blocks -> (length blocks < nframes)%nat -> (0 < rbuf)%N -> (rbuf mod 8 = 0)%N ->
+  parse_stream_e hash evalid tvalid nframes rbuf sched (write_stream_e hash c blocks) = Some (norm_cfg c, map PData blocks ++ [PEnd]).
+Proof. exact container_e_roundtrip. Qed.
+Print Assumptions C01_container_e_roundtrip.
